@@ -25,6 +25,7 @@ import scipy.sparse as sps
 
 from ..common import q, qlist, qclist, fr, call_impl, close
 
+EXTRA_LEAN_MODULES = ("PymotoVerif.Props.C07LDAS",)   # composition C06 o C07, built with every check of C06
 TOL = 1e-7
 TOL_Q = "1/10000000"
 RULE = ("histories of update/solve (3-10 ops quick, up to 40 thorough) on LDAWrapper(counting proxy(SolverDenseLU|SolverSparseLU)); "
@@ -643,11 +644,48 @@ def corpus_histories():
     return out
 
 
+def selftest(ctx, pool):
+    """thorough tier: sensitivity of the comparison itself. One number of the MODEL's input is changed (first entry of
+    the first right-hand side that both sides answered: +1); the unchanged implementation output must then disagree with
+    the model (or the model must reject the input). A flip that goes unnoticed is reported as a broken correspondence."""
+    reqs, meta = [], []
+    for h, obs, mres in pool:
+        idx = next((i for i, (op, o, m) in enumerate(zip(h["ops"], obs, mres))
+                    if op["op"] == "solve" and "x" in o and "x" in m), None)
+        if idx is None:
+            continue
+        hf = dict(h)
+        ops = list(h["ops"])
+        op = dict(ops[idx])
+        cols = [np.array(c, dtype=complex).copy() for c in op["rhs"]]
+        cols[0][0] += 1
+        op["rhs"] = cols
+        ops[idx] = op
+        hf["ops"] = ops[:idx + 1]
+        reqs.append(model_request(hf))
+        meta.append((h, obs, idx))
+    for (h, obs, idx), m in zip(meta, ctx.model(reqs)):
+        if "ok" not in m or "x" not in m["ok"][idx]:
+            ctx.branch("selftest.noticed_model_rejects")
+            continue
+        mx = _dec_blk(m["ok"][idx]["x"], h["field"])
+        X = np.asarray(obs[idx]["x"], dtype=complex).reshape(h["n"], -1)
+        sc = max(1.0, max((abs(z) for col in mx for z in col), default=1.0))
+        same, _ = close(X.T.flatten().tolist(), [z for col in mx for z in col], rtol=1e-7, atol=1e-9, scale=sc)
+        if same:
+            ctx.disagree("selftest", {"history": jsonable(h), "flipped_op": idx}, "unchanged implementation output",
+                         "model output for a different right-hand side", "a changed model input was not noticed by the comparison")
+        else:
+            ctx.evaluations += 1
+            ctx.branch("selftest.noticed")
+
+
 def correspondence(ctx):
     hs = corpus_histories() + build_histories(ctx)
     reqs = [model_request(h) for _, h in hs]
     res = ctx.model(reqs)
     nused = 0
+    selftest_pool = []
     for hi, ((tag, h), m) in enumerate(zip(hs, res)):
         if "ok" not in m:
             if m.get("err") == "Singular":
@@ -670,11 +708,15 @@ def correspondence(ctx):
         if why:
             ctx.oracle_fail(why, {"op": "history", "history": jsonable(h2)})
         nused += 1
+        if not ctx.quick and len(selftest_pool) < 60 and nused % 7 == 0:
+            selftest_pool.append((h2, obs, mres))
         if nused in (3, 40):
             j = jsonable(h2)
             ctx.sample({"history": {"n": j["n"], "sparse": j["sparse"], "nops": len(j["ops"]),
                                     "ops": [(o["op"], o.get("trans")) for o in j["ops"]]},
                         "model_first_solve": next((r for r in mres if "x" in r), None)})
+    if selftest_pool:
+        selftest(ctx, selftest_pool)
     # ---- get_diagonal_indices alone: every 3x3 pattern incl. zero diagonals -----------------------------
     from pymoto.solvers.solvers import get_diagonal_indices
     cases, impls = [], []
